@@ -285,6 +285,24 @@ def l75(ticks, fragmented):
     raw0 = tx._encode_packet(tx._build_packet())
     rx._recv_datagram(conn.PacketHeader.from_bytes(True, raw0), raw0)
     rx.incoming_messages = []
+    if fragmented:
+        # an earlier fragmented guaranteed send of the same process went through without loss: every send has its own
+        # sender object, nothing of it may leak into the next one
+        p0 = rope.fixed_blob('earlier', Packet.MAX_PAYLOAD_SIZE + 10)
+        cb0 = Rec('earlier')
+        tx.send(p0, RetryMode.RETRY_ON_TIMEOUT, cb0)
+        for _ in range(6):
+            clock.advance(0.05)
+            pk = tx._build_packet()
+            if pk is not None:
+                rw = tx._encode_packet(pk)
+                rx._recv_datagram(conn.PacketHeader.from_bytes(True, rw), rw)
+            rp = rx.update()
+            if rp is not None:
+                rr = rp[0].to_bytes(rp[1])
+                tx._recv_datagram(conn.PacketHeader.from_bytes(False, rr), rr)
+        check(cb0.calls == [True] and len(rx.incoming_messages) == 1, 'the earlier fragmented send completed')
+        rx.incoming_messages = []
     payload, L = rope.blob('p', 0, None)
     if fragmented:
         assume(And(L > Packet.MAX_PAYLOAD_SIZE, L <= Packet.MAX_PAYLOAD_SIZE + Packet.MAX_FRAGMENT_SIZE))
